@@ -237,6 +237,25 @@ CLAIMED["C06"] = dict(
     technique="Lean 4 proofs over a registry model + regenerated constants + differential correspondence with synthetic modules and real round-trips",
     design="7 C06")
 
+CLAIMED["C18"] = dict(
+    text="Append mode, kernel-checked: at node granularity a failing whole-root append has written only a pruned runtime tree R'; "
+         "C18_pruned_wf / C18_pruned_compatOne/Kids show every pruned tree inherits well-formedness and the common-name-space "
+         "condition, so C09's refinement applies to EVERY failure point: C18_append_every_point — whatever prefix of the work was "
+         "done, every node the file held is still at its path with exactly the content it had, the root group is again the encoding "
+         "of a well-formed tree (no scratch group), other trees and the header are untouched (C09_other_roots); C18_new_node_fresh — "
+         "a node being written for the first time goes under a name that was free. Finer granularity: the check makes EVERY h5py "
+         "mutation (create group / dataset / attribute, move, link, delete) of every generated append / append-over fail in turn on "
+         "the real code and inspects the file (paths present, individually readable, content held, other trees, scratch groups), "
+         "plus naturally failing saves.",
+    note="PARTIAL: (1) inside one node write the individual mutations are not modelled (fault enumeration only); (2) append-over is "
+         "NOT failure-atomic for the nodes it replaces — genuine defect, not a small repair, recorded as known finding C18-K1 "
+         "(C18_appendover_counterexample); any damage outside that class (append mode, file-only paths the runtime tree does not "
+         "reach, other trees) is reported as a violation; (3) process death / power loss inside libhdf5 is not modelled, only "
+         "failures surfacing as Python exceptions. One defect found by the enumeration was repaired (half-written root metadata "
+         "entry made every later read raise).",
+    technique="Lean 4 proof over pruned runtime trees (all node-granular failure points) + exhaustive h5py fault enumeration on the real code",
+    design="7 C18")
+
 NOT_YET = {}
 
 def main():
